@@ -73,6 +73,24 @@ SubLaws(h, p) ==
                                                  /\ w.probes[Len(l.probes) + 1] = P99(p)
   \* fatal: every failure is fatal, successes are untouched
   /\ h.k = "fatal" => (~r.ok => r.fatal)
+  \* the fatal flag passes unchanged through the combinators that only map values or change the
+  \* skipper ("Errors remain unchanged": convert.hpp, convert_const, construct, convert_if for the
+  \* operand's errors; lexeme, ignore, recursive, base forward the operand's result)
+  /\ h.k \in {"lexeme", "ignore", "recursive", "base", "conv", "cconst", "convif"} =>
+       LET e == Parse(h.g, IF h.k = "lexeme" THEN EpsSk ELSE Sk, s, p, Gr.ps) IN
+       ~e.ok => (~r.ok /\ r.fatal = e.fatal /\ r.locs = e.locs /\ r.probes = e.probes)
+  \* sequence: "the first error is returned" - with its fatal flag
+  /\ h.k = "seq" => LET l == Parse(h.l, Sk, s, p, Gr.ps) IN ~l.ok => r = l
+  \* every location an error must carry is the location after some character of the input, and a
+  \* success carries none; a one-character literal / char_set failing on a character reports the
+  \* location immediately after it
+  /\ \A i \in 1..Len(r.locs) : r.locs[i] = MayLoc \/ \E o \in 1..Len(s) : r.locs[i] = <<Line(s, o), Col(s, o)>>
+  /\ r.ok => r.locs = <<>>
+  /\ (h.k \in {"lit", "cset"} /\ ~r.ok /\ p < Len(s)) => r.locs = <<LocAfter(s, p)>>
+  \* ordered choice, errors: both sides failing non-fatally gives the left error then the right one
+  /\ h.k = "alt" => LET l == Parse(h.l, Sk, s, p, Gr.ps)
+                        q == Parse(h.r, Sk, s, p, Gr.ps)
+                    IN (~l.ok /\ ~l.fatal /\ ~q.ok /\ ~q.fatal) => (~r.ok /\ ~r.fatal /\ r.locs = l.locs \o q.locs)
 
 Laws == ph = 1 => \A h \in Subs : \A p \in 0..Len(s) : SubLaws(h, p)
 
@@ -81,8 +99,16 @@ Laws == ph = 1 => \A h \in Subs : \A p \in 0..Len(s) : SubLaws(h, p)
 EntryLaw ==
   ph = 1 =>
   LET k == Skip(Sk, s, 0)
-      e == Run(Gr.g, Sk, s, Gr.ps)
-  IN e.ok = (k.ok /\ LET r == Parse(Gr.g, Sk, s, k.pos, Gr.ps) IN r.ok /\ r.pos = Len(s))
+      e == Run("string", Gr.g, Sk, s, Gr.ps)
+      t == Run("stream", Gr.g, Sk, s, Gr.ps)
+      b == Run("bad", Gr.g, Sk, s, Gr.ps)
+  IN /\ e.ok = (k.ok /\ LET r == Parse(Gr.g, Sk, s, k.pos, Gr.ps) IN r.ok /\ r.pos = Len(s))
+     \* the stream entry points differ only by the missing remaining-input check
+     /\ e.ok => (t.ok /\ t.val = e.val)
+     /\ t.ok = (k.ok /\ Parse(Gr.g, Sk, s, k.pos, Gr.ps).ok)
+     /\ t.probes = e.probes /\ b.probes = e.probes
+     \* a stream that turns bad never yields a success
+     /\ ~b.ok
 
 (* static well-formedness of the generated family: the generator's types are the PegTypes types,
    the library's static requirements hold, no repetition of a nullable parser, repetitions only
